@@ -452,6 +452,16 @@ def dot_rules(ctx, flavours):
                     n += 1
                     if not nm.endswith('::new_display'):
                         odd.append('%s@%s' % (nm.split('::')[-1], t['sp']))
+            # ... and nothing in the exporter (closures included) rewrites text: no str / String / char transformer is called
+            TEXT_OK = {'as_str', 'clone', 'to_string', 'to_owned', 'from', 'new', 'push', 'push_str', 'as_ref', 'deref', 'borrow', 'len', 'is_empty', 'with_capacity',
+                       'write_str', 'write_fmt', 'write_char', 'fmt', 'default', 'into', 'as_bytes', 'eq', 'ne', 'reserve', 'capacity'}
+            for q2, b2 in sorted(F.bodies.items()):
+                if q2 != b['q'] and not q2.startswith(b['q'] + '::{closure'):
+                    continue
+                for bi2, t2 in calls_in(b2):
+                    nm2 = callee_name(t2)
+                    if re.match(r'^(std::|core::|alloc::)?(str::|string::String::|char::|std::str::|std::char::|std::string::String::|std::ascii::)', nm2) and _last(nm2) not in TEXT_OK:
+                        odd.append('%s@%s' % (nm2, t2['sp']))
             for bi, disp, tpl in _emits(F, b):
                 dt = _decode_template(tpl)
                 if '{:#opts' in dt or '{?}' in dt:
